@@ -1,0 +1,17 @@
+//go:build verif
+
+// C16 (and the write-set part of C15): what code reachable from Script.Run / RefRun may
+// write on objects that existed before the call - the task and its registers, scopes and
+// variables, run-time values (list / map contents), the input point and its index, error
+// chains.  Never a node of the syntax tree, a Script, a function table or a package-level
+// variable.  Checked for every function of the package that is not part of the load-time
+// check pass (comment-only; read by /verif/plvc).
+
+package runtime
+
+//@ frame runWrites = alltype(Task), alltype(PlReg), alltype(Stack), alltype(Varb), maptype(map[string]*Varb),
+//@ | maptype(map[string]*grok.GrokPattern), elemsof(any), maptype(map[string]any), elemsof(ast.DType),
+//@ | alltype(input.Point), alltype(input.TFMeta), maptype(map[string]string), maptype(map[string]*input.TFMeta),
+//@ | errchain.PlError.PosChain, elemsof(errchain.Position)
+
+//@ framesweep[C16] runWrites * -*Check -InitCtxForCheck -(*Script).Check -(*Task).SetCallRef -init
